@@ -89,7 +89,7 @@ fn reader_verdict_raw(chain: &[u64], unk: &[bool], ex: usize, tag: u64, is_maste
 
 pub fn run(out: &mut Out, seed: u64, thorough: bool) {
     let mut rng = Rng::new(seed);
-    let nschemas = if thorough { 1500 } else { 150 };
+    let nschemas = if thorough { 450 } else { 150 };     // (the systematic families make a case about 1400 events long)
     for n in 0..nschemas {
         let s = if n % 5 == 0 { gen::s3() } else { placeholder_schema(&mut rng) };
         dynspec::install(s.clone());
